@@ -726,3 +726,50 @@ pub fn subpattern_defs() -> BoxedStrategy<SubCase> {
         })
         .boxed()
 }
+
+// ---------------------------------------------------------------------------------------------
+// C13: callback family. Every pattern carries a callback spec (return type from the documented
+// table, decision salt, bump, attachment form); skips may carry skip callbacks.
+
+/// return type selectors: see `set::render_callback`
+pub const RET_UNIT: &[u8] = &[0, 1, 2, 3, 4, 5, 6, 7, 8, 9, 10];
+pub const RET_VALUE: &[u8] = &[11, 12, 13, 14, 15];
+pub const RET_SKIP: &[u8] = &[16, 17, 18, 19];
+
+pub fn callback_defs() -> BoxedStrategy<(DefSpec, Vec<bool>, bool)> {
+    use crate::spec::CbSpec;
+    let base = prop_oneof![
+        3 => def_strategy(GenCfg { utf8: true, unicode: false, looks: false, byte_items: false, flags: false, max_depth: 2 }),
+        2 => def_strategy(GenCfg { utf8: true, unicode: true, looks: false, byte_items: false, flags: false, max_depth: 2 }),
+        1 => def_strategy(GenCfg { utf8: false, unicode: false, looks: false, byte_items: true, flags: false, max_depth: 2 }),
+    ];
+    (base, vec((any::<u8>(), any::<u32>(), 0u8..3, 0u8..4, prop::bool::weighted(0.85)), 10), vec(any::<bool>(), 8), prop::bool::weighted(0.5))
+        .prop_map(|(mut def, specs, values, error_cb)| {
+            // one pattern per variant (the variant kind decides the admissible return types)
+            let flat: Vec<PatSpec> = def.variants.drain(..).flatten().collect();
+            def.variants = flat.into_iter().map(|p| vec![p]).collect();
+            let mut i = 0;
+            let nskips = def.skips.len();
+            let mut has_value = vec![false; nskips];
+            for s in def.skips.iter_mut() {
+                let (r, salt, bump, form, on) = specs[i % specs.len()];
+                i += 1;
+                if on {
+                    s.callback = Some(CbSpec { ret: RET_SKIP[r as usize % RET_SKIP.len()], salt, bump, form: 2 + form % 2 });
+                }
+            }
+            for (vi, v) in def.variants.iter_mut().enumerate() {
+                let (r, salt, bump, form, on) = specs[i % specs.len()];
+                i += 1;
+                let value = values[vi % values.len()];
+                has_value.push(value);
+                if value {
+                    v[0].callback = Some(CbSpec { ret: RET_VALUE[r as usize % RET_VALUE.len()], salt, bump, form });
+                } else if on {
+                    v[0].callback = Some(CbSpec { ret: RET_UNIT[r as usize % RET_UNIT.len()], salt, bump, form });
+                }
+            }
+            (def, has_value, error_cb)
+        })
+        .boxed()
+}
